@@ -102,4 +102,11 @@ C47_VerifyExact ==
                    \* the genuine triple verifies (twice), and then still nothing verifies under a related key
                    \* (one bit of the signer's key flipped) or a related hash (a byte appended / removed)
                    /\ ev.genuine_ok /\ ~ev.related_ok
+(* the same for a long-lived client object (SigSchemes.tla ObjectExact): while it holds the earlier key pk it *)
+(* verifies exactly pk's signatures, once it has become the vk client (whatever the way) exactly vk's          *)
+C47_ObjectExact ==
+  (ev.ev = "Sig" /\ ~IsKnown(ev)) => /\ (ev.obj_prev_verified <=> (ev.sk = ev.pk /\ ev.sh = ev.vh /\ ev.mg = "none"))
+                   /\ (ev.obj_verified <=> (ev.sk = ev.vk /\ ev.sh = ev.vh /\ ev.mg = "none"))
+(* a client id is always the hash of the client's public key: id, key bytes and key field agree          *)
+C47_ObjectBound == (ev.ev = "Sig" /\ ~IsKnown(ev)) => ev.obj_bound
 =============================================================================
